@@ -65,12 +65,9 @@ func c10Lists(tier string) [][]tcue {
 func c10Spec(cs []tcue, f int64) (out []tcue) {
 	for _, c := range cs {
 		s := c.S
-		b := (c.S/f + 1) * f
-		if c.S < 0 {
-			b = c.S / f * f
-			if b <= c.S {
-				b += f
-			}
+		b := c.S / f * f
+		for b <= c.S {
+			b += f
 		}
 		for ; b < c.E; b += f {
 			out = append(out, tcue{s, b, c.T})
@@ -126,10 +123,12 @@ func c10Check(cs []tcue, f int64, spare int, styled bool) string {
 	}
 	// no cue strictly contains a multiple of f
 	for _, g := range got {
-		if g.S >= 0 {
-			if m := (g.S/f + 1) * f; m < g.E {
-				return fmt.Sprintf("Fragment(%d) on %s: cue %s still strictly contains the multiple %d: %s", f, fmtCues(in), g, m, fmtCues(got))
-			}
+		m := g.S / f * f // the first multiple of f above the start (Go's division truncates towards zero)
+		for m <= g.S {
+			m += f
+		}
+		if m < g.E {
+			return fmt.Sprintf("Fragment(%d) on %s: cue %s still strictly contains the multiple %d: %s", f, fmtCues(in), g, m, fmtCues(got))
 		}
 	}
 	// timeline unchanged: multiset equality with per-cue cutting
@@ -193,6 +192,13 @@ func c10Random(r *fw.Rand) ([]tcue, int64) {
 		f = r.I64n(maxEnd) + 1
 	default:
 		f = unit * int64(r.Range(1, 20)) * fw.Pick(r, []int64{1, 100, 1000})
+	}
+	if r.P(1, 5) {
+		// the list starts before zero (e.g. after a negative sync): multiples of f below zero cut as well
+		off := (maxEnd/3/unit + 1) * unit
+		for i := range cs {
+			cs[i].S, cs[i].E = cs[i].S-off, cs[i].E-off
+		}
 	}
 	// keep the number of pieces bounded (the specification and the sort are linear in it)
 	for maxEnd/f > 400 {
